@@ -8,6 +8,7 @@ import gc
 import hashlib
 import posixpath
 import random
+import re
 import sys
 import warnings
 
@@ -140,7 +141,7 @@ class RunDirector(Director):
                                     "torn": torn, "n": n}
                 return ("crash", torn)
         if self.faults and kind in ("write", "open", "unlink", "rename"):
-            key = w.key_of_path.get(path)
+            key = w.key_for_path(path)
             if key is not None or path.startswith(SIM_REMOTE_DIR + "/"):
                 cnt_key = (kind, path)
                 nth = self.per_path.get(cnt_key, 0)
@@ -254,6 +255,7 @@ class World:
             p = CACHE_DIR + "/" + cache_file_name(kd)
             self.key_of_path[p] = i
             self.path_of_key[i] = p
+        self.key_of_md5 = {posixpath.basename(p)[10:42]: i for p, i in self.key_of_path.items()}
         self.uris = [key_uri(kd) for kd in self.keys]
         self.cache = None
         self.validator_policy = {"mode": "accept"}
@@ -300,9 +302,23 @@ class World:
     def _resources(self):
         return [self.sim_resource, self.rr.RemoteResourceHTTPS(), self.rr.RemoteResourceLocal()]
 
+    _MD5 = re.compile(r"[0-9a-f]{32}")
+
+    def key_for_path(self, path):
+        """The key a file in the cache directory belongs to: its final cache path, or any other name in
+        the cache directory that embeds the key's md5 (temporary names used while downloading)."""
+        key = self.key_of_path.get(path)
+        if key is not None:
+            return key
+        if path.startswith(CACHE_DIR + "/"):
+            m = self._MD5.search(posixpath.basename(path))
+            if m:
+                return self.key_of_md5.get(m.group(0))
+        return None
+
     # ------------------------------------------------------- remote side stubs
     def _attribute_key(self, filepath, res):
-        key = self.key_of_path.get(filepath)
+        key = self.key_for_path(filepath)
         if key is not None:
             return key
         # best effort when the code downloads to a temporary name: look up the call stack for an object
